@@ -53,7 +53,7 @@ def programs(draw, max_len=25):
     instrs = [{"op": draw(st.sampled_from(ALL_OPS)), "a": draw(OPERAND), "b": draw(OPERAND),
                "p": draw(st.integers(0, 11)), "q": draw(st.integers(0, 11))} for _ in range(n)]
     return {"leaves": leaves, "instrs": instrs, "root": draw(OPERAND), "g": draw(gen.upstream()),
-            "prio": draw(st.lists(st.integers(0, 1000), min_size=n, max_size=n))}
+            "prio": draw(st.lists(st.integers(0, 1000), min_size=n, max_size=n)), "extend": draw(st.booleans())}
 
 
 # ---- one op application (used for resolve, tracked run, FD re-execution) -----------------------------
@@ -424,7 +424,7 @@ def check_program(c, rec):
         if not ok:
             raise Violation("grad_value", f"leaf {i}: |grad - finite differences| = {err:.3e} (scale {scale:.3g}): grad="
                                           f"{np.asarray(gr.data).ravel()[:5].tolist()} fd={want[i].ravel()[:5].tolist()}; {ctx}")
-        got[i] = np.asarray(gr.data, dtype=np.float64)
+        got[i] = np.array(gr.data, dtype=np.float64)          # a copy: the buffer itself keeps accumulating
 
     # ---- (2) permuted construction order ------------------------------------------------------------------
     order = topo_order(ssa, c["prio"], k)
@@ -438,6 +438,27 @@ def check_program(c, rec):
                 raise Violation("order_dependence", f"leaf {i}: gradient depends on the construction order of independent "
                                                     f"branches: {gi.ravel()[:5].tolist()} vs {g2.ravel()[:5].tolist()} "
                                                     f"(order {order}); {ctx}")
+
+
+    # ---- (3) the graph grows above the old root; the old root's live .grad handle is the new upstream gradient ---
+    if c.get("extend") and got:
+        r = nodes[root]
+        h = r.grad
+        if h is not None:
+            rec.tag("extended_above_old_root")
+            z = r * 3.0 + r                       # the old root is now an interior node with two consumers
+            try:
+                z.backward(h)
+            except Exception as e:  # noqa: BLE001
+                raise Violation("backward_raised", f"backward of (root*3 + root) seeded with root.grad raised "
+                                                   f"{type(e).__name__}: {e}; {ctx}")
+            for i, gi in got.items():
+                g3 = np.asarray(nodes[i].grad.data, dtype=np.float64)
+                want3 = 5.0 * gi                  # leaves accumulate: first call + 4 x the same cotangent
+                if g3.shape != want3.shape or np.abs(g3 - want3).max(initial=0.0) > 1e-9 * max(1.0, np.abs(want3).max(initial=0.0)):
+                    raise Violation("grad_value", f"leaf {i}: after a second backward from (root*3 + root) seeded with the old "
+                                                  f"root's own .grad the accumulated gradient is {g3.ravel()[:5].tolist()}, "
+                                                  f"expected 5 x the first = {want3.ravel()[:5].tolist()}; {ctx}", region="extended")
 
 
 def subchecks():
